@@ -58,6 +58,12 @@ impl BufControl {
             .cast::<BufRingEntry>();
 
         let mut this = Self { ptr, len, size };
+        #[cfg(compio_verif)]
+        crate::verif::emit(
+            crate::verif::POOL_BUF,
+            len.get() as u64,
+            crate::verif::pool::NEW_RING,
+        );
 
         unsafe {
             driver.inner().submitter().register_buf_ring_with_flags(
@@ -144,6 +150,14 @@ impl BufControl {
     /// [`commit`]: Self::commit
     unsafe fn add_buffer(&mut self, buffer_id: u16, ptr: BufPtr, len: u32, offset: u16) {
         let idx = (self.tail().load(Ordering::Acquire) + offset) % self.len.get();
+        #[cfg(compio_verif)]
+        crate::verif::emit(
+            crate::verif::POOL_BUF,
+            buffer_id as u64
+                | (idx as u64) << 16
+                | (self.tail().load(Ordering::Acquire) as u64) << 32,
+            crate::verif::pool::RING_ADD,
+        );
 
         let entry = &mut self.as_slice_mut()[idx as usize];
 
